@@ -335,9 +335,10 @@ L_Wait ==
 \* nomination done (or direct mode): enter the connected-state handler
 L_EnterConn ==
     /\ lp = "sawConn"
-    /\ IF iceT \in {"Connected"}
-       THEN lp' = "inConn" /\ cp' = (IF Mode = "WebRtc" THEN "waitRole" ELSE "starting") /\ seenC' = iceT
-       ELSE lp' = "top" /\ UNCHANGED <<cp, seenC>>
+    \* the loop acts on the state it read at the top (seenL), not on the current one: after the nomination wait it
+    \* enters the handler even if ICE has been stopped meanwhile; a change noticed during the wait sends it back
+    /\ \/ lp' = "inConn" /\ cp' = (IF Mode = "WebRtc" THEN "waitRole" ELSE "starting") /\ seenC' = seenL
+       \/ iceT # seenL /\ lp' = "top" /\ UNCHANGED <<cp, seenC>>
     /\ UNCHANGED <<peer, reason, seenL, cval, cnext>>
     /\ UNCHANGED <<sig, ap, iceT, sock, role, dtls, dtask, dpermit, seenD, sctp, stask, srun, spermit,
                    swhy, loops, chan, opened, closes, grace, cl, handles, dropped, calls, sendpc, peerAlive, alertIn,
@@ -384,9 +385,13 @@ C_Role ==
     /\ UNCHANGED CUnch
 
 \* start_dtls: selected pair, IceConn, RtpTransport; WebRtc: DtlsTransport + runner task, SctpTransport
+\* the selected pair may have been read just before ice.stop() cleared it
+PairSeen == sock \/ iceT = "Closed"
+
 C_Start ==
     /\ cp = "starting"
-    /\ IF ~sock
+    /\ \E havePair \in {b \in BOOLEAN : (b => PairSeen) /\ (~b => ~sock)} :
+       IF ~havePair
        THEN /\ cp' = "pre:conn.start_failed" /\ cval' = "Failed" /\ cnext' = "retFalse"
             /\ SetReason(IF IsDirect THEN "TransportStartFailed" ELSE "DtlsFailed")
             /\ UNCHANGED <<dtls, seenD, sctp, stask>>
@@ -400,7 +405,14 @@ C_Start ==
     /\ UNCHANGED <<peer, seenC, spermit, loops, grace>>
     /\ UNCHANGED <<sig, ap, iceT, sock, seenL, role, lp, dpermit, srun, swhy, chan, opened, closes, cl, handles,
                    dropped, calls, sendpc, peerAlive, alertIn, abortIn, shutdownIn, wfcLeft, fired>>
-    /\ dtask' = IF sock /\ ~IsDirect THEN "running" ELSE dtask
+    /\ dtask' = IF cp' = "hsStarted" THEN "running" ELSE dtask
+
+\* Srtp: the handler waits for both descriptions before it starts the transport and gives up on a closed connection
+C_SrtpAbort ==
+    /\ cp = "starting" /\ Mode = "Srtp" /\ sig = "Closed"
+    /\ cp' = "retFalse"
+    /\ UNCHANGED <<peer, reason, seenC, cval, cnext, dtls, seenD, sctp, stask, spermit, loops, grace>>
+    /\ UNCHANGED CUnch
 
 \* (probe dtls.handshaking) -> the select loop of start_dtls
 C_HsEnter ==
@@ -754,7 +766,7 @@ Next ==
     \/ \E k \in 1..3 : A_Close1(k) \/ A_Close2(k) \/ A_Close3(k) \/ A_Close4(k) \/ A_Close5(k)
     \/ InnerDrop \/ AbortTracked
     \/ L_Top \/ L_SawChecking \/ L_Wait \/ L_EnterConn \/ L_PubFailed \/ L_PubClosed \/ L_ConnReturn
-    \/ C_Role \/ C_Start \/ C_HsEnter \/ C_Hs \/ C_HsConn \/ C_DirectSpawn \/ C_Spawned \/ C_Publish \/ C_Run
+    \/ C_Role \/ C_Start \/ C_SrtpAbort \/ C_HsEnter \/ C_Hs \/ C_HsConn \/ C_DirectSpawn \/ C_Spawned \/ C_Publish \/ C_Run
     \/ D_Connect \/ D_Close \/ D_SockGone \/ D_PeerAlert \/ D_Timeout
     \/ S_Start \/ S_DtlsUp \/ S_Established \/ S_ChanOpen \/ S_Closed \/ S_DtlsGone \/ S_Abort \/ S_PeerSilent
     \/ T_DirectEnd
@@ -765,7 +777,7 @@ Next ==
 \* every step of the code's own tasks is fair; the application script and the events are not
 Fairness ==
     /\ WF_vars(L_Top \/ L_SawChecking \/ L_Wait \/ L_EnterConn \/ L_PubFailed \/ L_PubClosed \/ L_ConnReturn)
-    /\ WF_vars(C_Role \/ C_Start \/ C_HsEnter \/ C_Hs \/ C_HsConn \/ C_DirectSpawn \/ C_Spawned \/ C_Publish \/ C_Run)
+    /\ WF_vars(C_Role \/ C_Start \/ C_SrtpAbort \/ C_HsEnter \/ C_Hs \/ C_HsConn \/ C_DirectSpawn \/ C_Spawned \/ C_Publish \/ C_Run)
     /\ WF_vars(D_Connect \/ D_Close \/ D_SockGone \/ D_PeerAlert \/ D_Timeout)
     /\ WF_vars(S_Start \/ S_DtlsUp \/ S_Established \/ S_ChanOpen \/ S_Closed \/ S_DtlsGone \/ S_Abort \/ S_PeerSilent)
     /\ WF_vars(T_DirectEnd)
